@@ -303,6 +303,15 @@ func (ex *Expect) evalProc(ni int) {
 			lin.Params[p.Name] = v
 			pkv = append(pkv, p.Name+"="+v)
 		}
+		for _, pk := range n.TagArgs {
+			port, key := pk[:strings.Index(pk, ".")], pk[strings.Index(pk, ".")+1:]
+			it := t.Ins[port]
+			v := it.Tags[key]
+			if v == "" && it.Lin != nil {
+				v = it.Lin.Tags[key]
+			}
+			pkv = append(pkv, "tg_"+strings.ReplaceAll(pk, ".", "_")+"="+v)
+		}
 		t.Key = simrt.TaskKey(n.Name, inPaths, pkv)
 		lin.TaskKey = t.Key
 		t.Lin = lin
